@@ -563,6 +563,27 @@ func init() {
 		d := in.concreteInt(fr, a[0].(*Term), "timer duration")
 		return in.newTimer(fr, fn, d, nil)
 	})
+	reg("time.NewTicker", func(in *Interp, fr *Frame, fn *ssa.Function, a []Value) Value {
+		d := in.concreteInt(fr, a[0].(*Term), "ticker period")
+		if d <= 0 {
+			in.rtPanic(fr, "non-positive interval for NewTicker")
+		}
+		pt := fn.Signature.Results().At(0).Type().(*types.Pointer)
+		p := new(Value)
+		*p = in.zero(pt.Elem())
+		ch := &Chan{cap: 1, id: in.sched.newID()}
+		(*p).(Struct)[0] = ch
+		in.armTicker(p, ch, d)
+		return p
+	})
+	reg("(*time.Ticker).Stop", func(in *Interp, fr *Frame, fn *ssa.Function, a []Value) Value {
+		p := a[0].(*Value)
+		if t, ok := in.timerOf[p]; ok {
+			t.dead = true
+			t.label = "stopped"
+		}
+		return nil
+	})
 	reg("time.After", func(in *Interp, fr *Frame, fn *ssa.Function, a []Value) Value {
 		d := in.concreteInt(fr, a[0].(*Term), "timer duration")
 		tp := in.newTimer(fr, in.findFunc("time", "NewTimer"), d, nil).(*Value)
@@ -652,6 +673,22 @@ func (in *Interp) armTimer(p *Value, ch *Chan, d int64, f Value, fr *Frame) {
 		}
 		if len(ch.buf) < ch.cap {
 			ch.buf = append(ch.buf, in.timeNow())
+		}
+	}
+	s.timers = append(s.timers, t)
+	in.timerOf[p] = t
+}
+
+// armTicker: a timer that delivers (dropping ticks when the receiver is slow) and re-arms itself
+func (in *Interp) armTicker(p *Value, ch *Chan, d int64) {
+	s := in.sched
+	t := &timerEnt{id: s.newID(), when: s.clock + d}
+	t.fire = func() {
+		if len(ch.buf) < ch.cap {
+			ch.buf = append(ch.buf, in.timeNow())
+		}
+		if t.label != "stopped" {
+			in.armTicker(p, ch, d)
 		}
 	}
 	s.timers = append(s.timers, t)
